@@ -3,11 +3,13 @@ package c15
 import (
 	"bytes"
 	"context"
+	"encoding/json"
 	"fmt"
 	"math/big"
 	"strings"
 	"testing"
 
+	"github.com/cosmos/cosmos-sdk/codec"
 	sdk "github.com/cosmos/cosmos-sdk/types"
 	"github.com/cosmos/cosmos-sdk/types/query"
 	"pgregory.net/rapid"
@@ -31,7 +33,7 @@ const c15Sentinel = "[do-not-modify]"
 var c15Max = new(big.Int).SetUint64(^uint64(0))
 
 type c15Op struct {
-	Kind   string `json:"kind"` // issue | mint | edit | transfer | burn | xferdenom
+	Kind   string `json:"kind"` // issue | mint | edit | transfer | burn | xferdenom | reimport
 	Who    int    `json:"who"`
 	To     int    `json:"to,omitempty"`     // recipient; -1 = empty recipient field (mint: defaults to the sender)
 	Denom  int    `json:"denom"`            // index into the classes issued so far; out of range = an id that was never generated
@@ -39,6 +41,9 @@ type c15Op struct {
 	Amount uint64 `json:"amount,omitempty"` // full unsigned 64-bit range
 	Name   string `json:"name,omitempty"`
 	Data   string `json:"data,omitempty"`
+	// Pad (mint only): optional fields are given as white space instead of left empty (id "  " = generate an id,
+	// recipient "  " = the sender) and a given token id is surrounded by blanks (the handler trims it)
+	Pad bool `json:"pad,omitempty"`
 }
 
 type c15Denom struct {
@@ -63,12 +68,22 @@ type c15Machine struct {
 	allIDs map[string]bool
 
 	nOverflow, nUnderflow, nSelf, nStranger, nMintExisting, nBurnAll, nHandoverMint, nAccepted, nMaxSupply, nLax, nInvalidRefused int
+
+	// genesis round trips (restart of the module from its own export)
+	nReimport, nReimportMulti, nReimportZeroSupply, nReimportZeroBalance, nReimportMaxSupply, nReimportHanded int
+	nReimportEmptyClass                                                                                        int
+	sinceReimport                                                                                              int // accepted messages since the last round trip (-1 = no round trip yet)
+	multiAtReimport                                                                                            bool
+	nMintNewAfterReimport, nMintNewAfterMultiReimport, nIssueAfterReimport, nMintExistingAfterReimport         int
+	nSpendAfterReimport                                                                                        int
+	// optional fields and actors
+	cnt map[string]int
 }
 
 const c15Users = 4
 
 func newC15() pbt.Machine[c15Op] {
-	return &c15Machine{c: gen.Env().NewCase(), byID: map[string]*c15Denom{}, allIDs: map[string]bool{}}
+	return &c15Machine{c: gen.Env().NewCase(), byID: map[string]*c15Denom{}, allIDs: map[string]bool{}, cnt: map[string]int{}, sinceReimport: -1}
 }
 
 func (m *c15Machine) addr(i int) string { return m.c.E.Users[i].Addr.String() }
@@ -207,8 +222,38 @@ func (m *c15Machine) drawHolder(t *rapid.T, tk *c15MT) int {
 	return rapid.IntRange(0, c15Users).Draw(t, "anyholder")
 }
 
+// holding counts the classes that hold at least one token.
+func (m *c15Machine) holding() int {
+	n := 0
+	for _, d := range m.denoms {
+		if len(d.mts) > 0 {
+			n++
+		}
+	}
+	return n
+}
+
 func (m *c15Machine) Next(t *rapid.T) c15Op {
+	// restart of the module from its own exported genesis: at any point of the history, more often while the state
+	// is one a restart has not seen yet (two or more classes holding tokens)
+	if len(m.denoms) > 0 {
+		odds := 40
+		zero := false
+		for _, x := range m.mts {
+			zero = zero || x.supply.Sign() == 0
+		}
+		if (m.holding() >= 2 && m.nReimportMulti == 0) || (zero && m.nReimportZeroSupply == 0) {
+			odds = 8
+		}
+		if rapid.IntRange(0, odds-1).Draw(t, "reimport") == 0 {
+			return c15Op{Kind: "reimport", Denom: -1, MT: -1}
+		}
+	}
 	k := rapid.IntRange(0, 99).Draw(t, "kind")
+	// the ids generated right after a round trip tell whether the sequences survived it
+	if m.sinceReimport >= 0 && m.sinceReimport < 3 && rapid.IntRange(0, 1).Draw(t, "after-reimport") == 0 {
+		k = rapid.SampledFrom([]int{0, 10, 10, 10, 30}).Draw(t, "after-reimport/kind")
+	}
 	if len(m.denoms) == 0 && k >= 15 {
 		k = 0
 	}
@@ -228,7 +273,10 @@ func (m *c15Machine) Next(t *rapid.T) c15Op {
 			rightful = d.owner
 		}
 		op := c15Op{Kind: "mint", Denom: di, MT: -1, Who: m.drawWho(t, rightful), To: rapid.IntRange(-1, c15Users).Draw(t, "to"),
-			Data: rapid.SampledFrom([]string{"", "td", c15Sentinel}).Draw(t, "data")}
+			Data: rapid.SampledFrom([]string{"", "td", c15Sentinel}).Draw(t, "data"), Pad: rapid.IntRange(0, 5).Draw(t, "pad") == 0}
+		if rapid.IntRange(0, 5).Draw(t, "to-self") == 0 {
+			op.To = op.Who // recipient given and equal to the sender
+		}
 		op.Amount = c15Amount(t, new(big.Int), new(big.Int), false)
 		return op
 	case k < 45: // mint more of an existing token
@@ -243,7 +291,11 @@ func (m *c15Machine) Next(t *rapid.T) c15Op {
 		if tk != nil {
 			supply = tk.supply
 		}
-		op := c15Op{Kind: "mint", Denom: di, MT: mi, Who: m.drawWho(t, rightful), To: rapid.IntRange(-1, c15Users).Draw(t, "to")}
+		op := c15Op{Kind: "mint", Denom: di, MT: mi, Who: m.drawWho(t, rightful), To: rapid.IntRange(-1, c15Users).Draw(t, "to"),
+			Pad: rapid.IntRange(0, 5).Draw(t, "pad") == 0}
+		if rapid.IntRange(0, 5).Draw(t, "to-self") == 0 {
+			op.To = op.Who
+		}
 		op.Amount = c15Amount(t, supply, supply, false)
 		if rapid.IntRange(0, 19).Draw(t, "data-with-id") == 0 {
 			op.Data = "td"
@@ -280,6 +332,9 @@ func (m *c15Machine) Next(t *rapid.T) c15Op {
 		mi := m.drawMT(t, d)
 		tk, _ := m.mtAt(mi)
 		who := m.drawHolder(t, tk)
+		if d != nil && rapid.IntRange(0, 7).Draw(t, "burn/class-owner") == 0 {
+			who = m.userOf(d.owner) // the class owner, holder or not
+		}
 		supply := new(big.Int)
 		if tk != nil {
 			supply = tk.supply
@@ -300,6 +355,9 @@ func (m *c15Machine) Next(t *rapid.T) c15Op {
 // model step + execution
 
 func (m *c15Machine) Apply(op c15Op) error {
+	if op.Kind == "reimport" {
+		return m.applyReimport()
+	}
 	nu := len(m.c.E.Users)
 	if op.Who < 0 || op.Who >= nu || op.To < -1 || op.To >= nu {
 		return fmt.Errorf("bad replay op %+v", op)
@@ -321,11 +379,21 @@ func (m *c15Machine) Apply(op c15Op) error {
 	valid := true            // input validation the property does not talk about (zero amount, empty name, metadata on a top-up)
 	c0, c1, c2 := m.nOverflow, m.nUnderflow, m.nStranger
 	var commit func(res chain.Result) error
+	var notes []string // optional-field / actor classes of this message, counted when it is accepted
+	refusedNote := ""  // class counted when a well-formed message is refused
+	note := func(c bool, name string) {
+		if c {
+			notes = append(notes, name)
+		}
+	}
 	switch op.Kind {
 	case "issue":
 		msg = &mttypes.MsgIssueDenom{Name: op.Name, Data: []byte(op.Data), Sender: sender}
 		valid = strings.TrimSpace(op.Name) != ""
 		accept = true
+		note(op.Data == "", "issue-without-data")
+		note(op.Data != "", "issue-with-data")
+		note(strings.TrimSpace(op.Name) != op.Name, "issue-padded-name")
 		commit = func(res chain.Result) error {
 			ids := chain.EventAttrs(res.Events, "issue_denom", "denom_id")
 			if len(ids) != 1 || ids[0] == "" {
@@ -338,6 +406,9 @@ func (m *c15Machine) Apply(op c15Op) error {
 			nd := &c15Denom{id: ids[0], owner: sender, name: strings.TrimSpace(op.Name), data: []byte(op.Data), mts: map[string]*c15MT{}}
 			m.denoms = append(m.denoms, nd)
 			m.byID[nd.id] = nd
+			if m.sinceReimport >= 0 {
+				m.nIssueAfterReimport++
+			}
 			return nil
 		}
 	case "mint":
@@ -346,7 +417,26 @@ func (m *c15Machine) Apply(op c15Op) error {
 		if !newTok {
 			mm.Id = mtID
 		}
+		if op.Pad { // white space instead of nothing, blanks around a given id: the handler trims
+			if newTok {
+				mm.Id = "  "
+			} else {
+				mm.Id = " " + mtID + " "
+			}
+			if op.To < 0 {
+				mm.Recipient = "  "
+			}
+		}
 		msg = mm
+		note(op.To < 0 && !op.Pad, "mint-recipient-empty")
+		note(op.To < 0 && op.Pad, "mint-recipient-blank")
+		note(op.To == op.Who, "mint-recipient-is-sender")
+		note(op.To >= 0 && op.To != op.Who, "mint-recipient-other")
+		note(newTok && !op.Pad, "mint-id-empty")
+		note(newTok && op.Pad, "mint-id-blank")
+		note(!newTok && op.Pad, "mint-id-padded")
+		note(newTok && op.Data == "", "mint-new-without-data")
+		note(newTok && op.Data != "", "mint-new-with-data")
 		valid = op.Amount != 0 && (newTok || len(op.Data) == 0)
 		switch {
 		case d == nil:
@@ -376,11 +466,20 @@ func (m *c15Machine) Apply(op c15Op) error {
 				t = &c15MT{denom: d.id, id: ids[0], data: []byte(op.Data), supply: new(big.Int), bal: map[string]*big.Int{}}
 				d.mts[t.id] = t
 				m.mts = append(m.mts, t)
+				if m.sinceReimport >= 0 {
+					m.nMintNewAfterReimport++
+					if m.multiAtReimport {
+						m.nMintNewAfterMultiReimport++
+					}
+				}
 			} else {
 				if ids[0] != tk.id {
 					return pbt.Failf("C15/mint-event", "minted %s, event says %s", tk.id, ids[0])
 				}
 				m.nMintExisting++
+				if m.sinceReimport >= 0 {
+					m.nMintExistingAfterReimport++
+				}
 			}
 			t.supply = new(big.Int).Add(t.supply, amt)
 			t.bal[rcpt] = new(big.Int).Add(c15Bal(t, rcpt), amt)
@@ -408,6 +507,9 @@ func (m *c15Machine) Apply(op c15Op) error {
 		default:
 			accept = true
 		}
+		note(op.Data == c15Sentinel, "edit-do-not-modify")
+		note(op.Data == "", "edit-to-empty-data")
+		note(op.Data != "" && op.Data != c15Sentinel, "edit-changes-data")
 		commit = func(chain.Result) error {
 			if op.Data != c15Sentinel {
 				tk.data = []byte(op.Data)
@@ -437,6 +539,9 @@ func (m *c15Machine) Apply(op c15Op) error {
 			if rcpt == sender {
 				m.nSelf++
 			}
+			if m.sinceReimport >= 0 {
+				m.nSpendAfterReimport++
+			}
 			return nil
 		}
 	case "burn":
@@ -447,9 +552,14 @@ func (m *c15Machine) Apply(op c15Op) error {
 		case held.Cmp(amt) < 0:
 			why = "C15/burn-more-than-held"
 			m.nUnderflow++
+			if d != nil && tk != nil && d.owner == sender && held.Sign() == 0 && tk.supply.Sign() > 0 {
+				refusedNote = "burn-by-class-owner-without-balance-refused"
+			}
 		default:
 			accept = true
 		}
+		note(d != nil && tk != nil && d.owner == sender, "burn-by-holder-who-owns-the-class")
+		note(d != nil && tk != nil && d.owner != sender, "burn-by-holder-who-does-not-own-the-class")
 		commit = func(chain.Result) error {
 			if tk == nil { // only reachable with a (leniently accepted) zero amount
 				return nil
@@ -458,6 +568,9 @@ func (m *c15Machine) Apply(op c15Op) error {
 			tk.supply = new(big.Int).Sub(tk.supply, amt)
 			if tk.supply.Sign() == 0 {
 				m.nBurnAll++
+			}
+			if m.sinceReimport >= 0 {
+				m.nSpendAfterReimport++
 			}
 			return nil
 		}
@@ -475,6 +588,8 @@ func (m *c15Machine) Apply(op c15Op) error {
 		default:
 			accept = true
 		}
+		note(rcpt == sender, "class-handover-to-current-owner")
+		note(rcpt != sender, "class-handover-to-other")
 		commit = func(chain.Result) error {
 			d.owner = rcpt
 			d.handed = true
@@ -506,10 +621,102 @@ func (m *c15Machine) Apply(op c15Op) error {
 			return err
 		}
 		m.nAccepted++
+		for _, n := range notes {
+			m.cnt[n]++
+		}
 	} else if !valid {
 		m.nInvalidRefused++
+	} else if refusedNote != "" {
+		m.cnt[refusedNote]++
+	}
+	if m.sinceReimport >= 0 {
+		m.sinceReimport++
 	}
 	return m.check()
+}
+
+// ---------------------------------------------------------------------------------------------
+// restart: the module is exported, its store wiped, the export imported; the history goes on
+
+func (m *c15Machine) exportJSON() json.RawMessage {
+	mod, ok := m.c.E.App.ModuleManager.Modules["mt"].(interface {
+		ExportGenesis(sdk.Context, codec.JSONCodec) json.RawMessage
+	})
+	if !ok {
+		panic("mt module has no ExportGenesis of the expected shape")
+	}
+	return mod.ExportGenesis(m.c.Ctx, m.c.E.App.AppCodec())
+}
+
+// applyReimport takes the mt module through its own genesis. The genesis carries every class, token and balance
+// (sequences are rebuilt from the counts), so the ledger stays as it is: every clause of check() holds on the restored
+// state, and whatever is generated afterwards must be new.
+func (m *c15Machine) applyReimport() error {
+	zeroSupply, zeroBal, maxSupply, handed, empty := false, false, false, false, false
+	for _, d := range m.denoms {
+		handed = handed || d.handed
+		empty = empty || len(d.mts) == 0
+		for _, t := range d.mts {
+			zeroSupply = zeroSupply || t.supply.Sign() == 0
+			maxSupply = maxSupply || t.supply.Cmp(c15Max) == 0
+			for _, b := range t.bal {
+				zeroBal = zeroBal || (b.Sign() == 0 && t.supply.Sign() > 0)
+			}
+		}
+	}
+	multi := m.holding() >= 2
+	before, stage, err := m.c.Reimport("mt")
+	if err != nil {
+		return pbt.Failf("C15/reimport-"+stage, "mt genesis round trip with %d classes / %d tokens: %v\nexported: %s", len(m.denoms), len(m.mts), err, before)
+	}
+	if after := m.exportJSON(); !bytes.Equal(before, after) {
+		return pbt.Failf("C15/reimport-export-differs", "the restored state exports a different genesis\nbefore: %s\nafter:  %s", before, after)
+	}
+	m.nReimport++
+	b2i := func(b bool) int {
+		if b {
+			return 1
+		}
+		return 0
+	}
+	m.nReimportMulti += b2i(multi)
+	m.nReimportZeroSupply += b2i(zeroSupply)
+	m.nReimportZeroBalance += b2i(zeroBal)
+	m.nReimportMaxSupply += b2i(maxSupply)
+	m.nReimportHanded += b2i(handed)
+	m.nReimportEmptyClass += b2i(empty)
+	m.sinceReimport, m.multiAtReimport = 0, multi
+	if err := m.check(); err != nil {
+		return err
+	}
+	return m.probeIDs()
+}
+
+// probeIDs continues the history on a throw-away branch with one new class and one new token in every class (minted
+// by the class owner): none of the generated ids may have been generated before.
+func (m *c15Machine) probeIDs() error {
+	b := m.c.Branch()
+	seen := map[string]bool{}
+	res := b.Deliver(&mttypes.MsgIssueDenom{Name: "probe", Sender: m.addr(0)})
+	ids := chain.EventAttrs(res.Events, "issue_denom", "denom_id")
+	if res.Outcome != chain.OK || len(ids) != 1 {
+		return pbt.Failf("C15/rightful-issue-refused", "issuing one more class: %v (ids %v)", res, ids)
+	}
+	if m.allIDs["d:"+ids[0]] {
+		return pbt.Failf("C15/class-id-reused", "the next class would get id %s, which was generated before", ids[0])
+	}
+	for _, d := range m.denoms {
+		res := b.Deliver(&mttypes.MsgMintMT{DenomId: d.id, Amount: 1, Sender: d.owner})
+		ids := chain.EventAttrs(res.Events, "mint_mt", "mt_id")
+		if res.Outcome != chain.OK || len(ids) != 1 {
+			return pbt.Failf("C15/rightful-mint-refused", "minting one more token into class %s by its owner: %v (ids %v)", d.id, res, ids)
+		}
+		if m.allIDs["t:"+ids[0]] || seen[ids[0]] {
+			return pbt.Failf("C15/token-id-reused", "the next token of class %s would get id %s, which was generated before", d.id, ids[0])
+		}
+		seen[ids[0]] = true
+	}
+	return nil
 }
 
 // ---------------------------------------------------------------------------------------------
@@ -703,7 +910,7 @@ func (m *c15Machine) check() error {
 	return nil
 }
 
-func (m *c15Machine) Finish() error { return nil }
+func (m *c15Machine) Finish() error { return m.probeIDs() }
 
 func (m *c15Machine) Classify() (bool, []string) {
 	var cl []string
@@ -724,10 +931,35 @@ func (m *c15Machine) Classify() (bool, []string) {
 	add(m.nInvalidRefused > 0, "malformed-input-refused")
 	add(m.nLax > 0, "malformed-input-accepted(validation-laxer-than-documented)")
 	add(len(m.mts) >= 3, "tokens>=3")
+	add(m.nReimport > 0, "reimport")
+	add(m.nReimport >= 2, "reimport-twice")
+	add(m.nReimportMulti > 0, "reimport-with-2+-classes-holding-tokens")
+	add(m.nReimportEmptyClass > 0, "reimport-with-class-without-tokens")
+	add(m.nReimportZeroSupply > 0, "reimport-with-token-burned-to-zero")
+	add(m.nReimportZeroBalance > 0, "reimport-with-emptied-holder")
+	add(m.nReimportMaxSupply > 0, "reimport-with-supply-at-max-uint64")
+	add(m.nReimportHanded > 0, "reimport-with-handed-over-class")
+	add(m.nMintNewAfterReimport > 0, "reimport-then-new-token")
+	add(m.nMintNewAfterMultiReimport > 0, "reimport-with-2+-classes-then-new-token")
+	add(m.nIssueAfterReimport > 0, "reimport-then-new-class")
+	add(m.nMintExistingAfterReimport > 0, "reimport-then-mint-existing-token")
+	add(m.nSpendAfterReimport > 0, "reimport-then-transfer-or-burn")
+	for _, n := range c15Notes {
+		add(m.cnt[n] > 0, n)
+	}
 	return (m.nOverflow > 0 || m.nUnderflow > 0) && m.nSelf > 0, cl
 }
 
-const c15Rule = "rapid state machine, 4 senders / 5 recipients: issue class / mint new token / mint existing token / edit / transfer (incl. to self) / burn / class hand-over, ids referenced by creation index (also ids of other classes and never generated ids), amounts over the whole uint64 range by shape (tiny, random bit length, 2^63 and 2^64-1 boundaries, held-1/held/held+1, room-1/room/room+1 where room = 2^64-1-supply); non-trivial = history with an attempted overflow (mint beyond 2^64-1) or underflow (transfer/burn of more than held) and an accepted transfer to self; distinct by SHA-256 of the op list"
+var c15Notes = []string{
+	"issue-without-data", "issue-with-data", "issue-padded-name",
+	"mint-recipient-empty", "mint-recipient-blank", "mint-recipient-is-sender", "mint-recipient-other",
+	"mint-id-empty", "mint-id-blank", "mint-id-padded", "mint-new-without-data", "mint-new-with-data",
+	"edit-do-not-modify", "edit-to-empty-data", "edit-changes-data",
+	"class-handover-to-current-owner", "class-handover-to-other",
+	"burn-by-holder-who-owns-the-class", "burn-by-holder-who-does-not-own-the-class", "burn-by-class-owner-without-balance-refused",
+}
+
+const c15Rule = "rapid state machine, 4 senders / 5 recipients: issue class / mint new token / mint existing token (recipient empty, blank, the sender, another account; id empty, blank, padded) / edit (incl. the do-not-modify placeholder) / transfer (incl. to self) / burn (by holders and by the class owner) / class hand-over (incl. to the current owner) / restart of the module from its own exported genesis (the ledger continues; one more class and one more token per class are generated on a side branch after every restart and at the end), ids referenced by creation index (also ids of other classes and never generated ids), amounts over the whole uint64 range by shape (tiny, random bit length, 2^63 and 2^64-1 boundaries, held-1/held/held+1, room-1/room/room+1 where room = 2^64-1-supply); non-trivial = history with an attempted overflow (mint beyond 2^64-1) or underflow (transfer/burn of more than held) and an accepted transfer to self; distinct by SHA-256 of the op list"
 
 func init() { pbt.RegisterMachine("c15", newC15) }
 
